@@ -310,3 +310,33 @@ func patOf(k int) string {
 	k %= 81
 	return string([]byte{d[k/27], d[(k/9)%3], d[(k/3)%3], d[k%3]})
 }
+
+// montWords returns the canonical value of the scalar whose stored (Montgomery) words, as an integer, are w: w * 2^-256 mod r.
+// "Small" for code that looks at the stored words (IsUint64, Bit, word 0) is a different class from small canonical values.
+func montWords(w *big.Int) *big.Int {
+	rinv := new(big.Int).ModInverse(two256, modR)
+	v := new(big.Int).Mul(new(big.Int).Mod(w, modR), rinv)
+	return v.Mod(v, modR)
+}
+
+// named classes "mont:<k>" with k in {1, 5, 255, 2^63, 2^64-1, 2^64, 2^128}
+func montClass(name string) *big.Int {
+	one := big.NewInt(1)
+	switch name {
+	case "mont:1":
+		return montWords(one)
+	case "mont:5":
+		return montWords(big.NewInt(5))
+	case "mont:255":
+		return montWords(big.NewInt(255))
+	case "mont:2^63":
+		return montWords(new(big.Int).Lsh(one, 63))
+	case "mont:2^64-1":
+		return montWords(new(big.Int).Sub(new(big.Int).Lsh(one, 64), one))
+	case "mont:2^64":
+		return montWords(new(big.Int).Lsh(one, 64))
+	case "mont:2^128":
+		return montWords(new(big.Int).Lsh(one, 128))
+	}
+	return nil
+}
